@@ -3,7 +3,7 @@
 spec   : spec/RunLifecycleContract.tla (X1..X6, from the statement + documented exit codes),
          spec/RunLifecycleSteps.tla + spec/RunLifecycle.tla (design: the phases of
          BaseCommand.entry_point / AsyncScript.run / Scanner.teardown, Dev_S21/S22/S23/S23b)
-MC     : MC_RunLifecycle_design.cfg exhaustive over Kind x 2^4 resources x Fail (1696 cases);
+MC     : MC_RunLifecycle_design.cfg exhaustive over Kind x 2^4 resources x Fail (1720 cases);
          devS21/devS22/devS23/devS23b are negative controls; export.cfg prints every case with
          its expected final state
 binding: spec -> code: every exported case is executed against the REAL entry_point() of three
@@ -12,6 +12,10 @@ binding: spec -> code: every exported case is executed against the REAL entry_po
          code -> spec: the observed final state of each execution is a one-step trace validated
          by TLC (Trace_RunLifecycle), which also names the set of known deviations that
          reproduces the observation exactly.
+lock   : the lock file of the run is HELD by another process when the run starts (c15_worker.contended_case):
+         the run waits; either it is interrupted while it waits (case point LockWait: real SIGINT / cancellation;
+         all kinds x {artifacts, db, hooks} on/off) or the holder lets go after a while and the run goes on as
+         its case says (option "lockheld" on a spread of the ordinary cases).
 stock  : gallia's OWN commands that open / use / hand over the database connection of their run
          (`script rerun --id N --db FILE | --file META.json`, `discover doip --db FILE`) through
          the real entry_point() (select_stock / c15_worker.stock_case): one trace for the stock
@@ -48,10 +52,10 @@ DEV_NAMES = {
 NEG_CONTROLS = {"devS21": "S21", "devS22": "S22", "devS23": "S23", "devS23b": "S23b"}
 ACTIONS = ["ALock", "AArtifacts", "ALogOpen", "APreHook", "ADbOpen", "ASetup", "AMain", "ATeardown", "AMap",
            "ADbClose", "AMetaWrite", "ALogClose", "APostHook", "AUnlock", "AExit"]
-OBS_KEYS = ("exit", "escaped", "meta", "log", "lockFree", "db", "pre", "post", "phases", "reported")
+OBS_KEYS = ("exit", "escaped", "meta", "log", "lockFree", "db", "pre", "post", "phases", "reported", "rundir")
 PREHOOK_BASE = 9_000_000
 GLITCH_BASE = 9_500_000
-CASE_OPTS = ("flavour", "dbfail", "nested", "ping", "dbglitch")  # per-case options outside the design's case space
+CASE_OPTS = ("flavour", "dbfail", "nested", "ping", "dbglitch", "lockheld", "intr")  # per-case options outside the design's case space
 CLI_BASE = 100000
 STOCK_BASE = 50_000   # stock commands of gallia itself (in-process); ids in steps of 2: own run, re-run command
 EXIT_GRACE_S = 30
@@ -182,18 +186,20 @@ def run_cli_case(bench: Bench, case: dict[str, Any]) -> dict[str, Any]:
             try:
                 if rfd is not None:
                     t0 = time.monotonic()
-                    ready = False
+                    ready = skip = False
                     while time.monotonic() - t0 < 120:
                         r, _, _ = select.select([rfd], [], [], 0.25)
-                        if r and os.read(rfd, 16):
+                        if r and (word := os.read(rfd, 16)):
                             ready = True
+                            skip = word.startswith(b"skip")  # the run ended before its SIGINT point (reported as such)
                             break
                         if p.poll() is not None:
                             break
                     if not ready:
                         raise Machinery(f"cli case {case['id']} never reached its SIGINT point "
                                         f"(rc={p.poll()}): {errp.read_text()[-1500:]}")
-                    os.kill(p.pid, signal.SIGINT)
+                    if not skip:
+                        os.kill(p.pid, signal.SIGINT)
                 # the observation is written when entry_point() has ended; after that the interpreter
                 # only has to exit.  A process that does not (a left-open log handler can deadlock
                 # logging.shutdown()) is killed and reported, not waited for.
@@ -323,6 +329,25 @@ def select_cases(cases: list[dict[str, Any]], tier: str, seed: int) -> tuple[lis
         cli = full + sorted(rnd.sample(rest, min(10, len(rest)))) + sorted(rnd.sample(some_other, min(10, len(some_other))))
     a = [{"id": i, "c": cases[i]["c"], "expect": cases[i]["expect"]} for i in inproc]
     b = [{"id": CLI_BASE + i, "c": cases[i]["c"], "expect": cases[i]["expect"]} for i in cli]
+    # the lock file is held by another process when the run starts:
+    # (1) interrupted while waiting for it.  As real processes (SIGINT from outside) the cases are part of `cli`
+    #     above; in-process, every kind x {artifacts, db, hooks} with a SIGINT raised by the process itself or
+    #     with the task that runs entry_point() cancelled, early and late in the wait
+    waiters = [i for i in ctrlc if cases[i]["c"]["point"] == "LockWait"]
+    for k, i in enumerate(waiters):
+        a.append({"id": i, "c": cases[i]["c"], "expect": cases[i]["expect"], "intr": ("sigint", "cancel")[k % 2],
+                  "lockheld": (0.05, 0.3, 0.15)[k % 3]})
+    for cs in b:
+        if cs["c"]["point"] == "LockWait":
+            cs["lockheld"] = (0.05, 0.3, 0.15)[cs["id"] % 3]
+    # (2) the holder lets go after a while and the run goes on as its case says: a spread of the ordinary cases
+    every = 13 if tier == "quick" else 5
+    k = 0
+    for cs in a + b:
+        if cs["c"]["lock"] and cs["c"]["point"] != "LockWait":
+            k += 1
+            if k % every == 0:
+                cs["lockheld"] = (0.1, 0.3)[(k // every) % 2]
     # Ctrl-C while the pre-hook runs (outside the design layer's case space: judged by the contract only; the
     # database is left out because the interrupt is then delivered inside the database open, where the
     # statement is silent about the run record)
@@ -430,6 +455,45 @@ def select_stock(tier: str) -> list[dict[str, Any]]:
         if full or j == 0:
             add(outer(art, True, lock, hooks), {"cmd": "doip", "target": "closed", "slow": True})
     return out
+
+
+def lock_traces(sel: list[dict[str, Any]], obs: dict[int, dict[str, Any]], rep: Report) -> list[dict[str, Any]]:
+    """One one-step trace per executed case.  Runs whose lock file was held by another process: an interrupted
+    waiter is judged as such only if it was seen to be interrupted while the holder had the lock and ended by itself;
+    a run that did not wait at all is judged as the plain run it was, one that did not end while the lock was held
+    (how fast Ctrl-C ends a waiting run is X22's subject, not C15's) is not judged.  Both are reported as drift."""
+    traces: list[dict[str, Any]] = []
+    st = {"interrupted_waiters": 0, "by": {}, "did_not_wait": 0, "not_ended_while_held": 0, "proceeded": 0,
+          "entered_before_release": 0, "wait_hint_seen": 0}
+    for cs in sel:
+        o, c, expect = obs[cs["id"]], cs["c"], cs["expect"]
+        raw = o.get("_raw", {})
+        mode = "cli" if cs["id"] >= CLI_BASE else "inproc"
+        if raw.get("lock_contended"):
+            st["wait_hint_seen"] += bool(raw.get("wait_hint_seen"))
+            if c["point"] == "LockWait" and raw.get("did_not_wait"):
+                st["did_not_wait"] += 1
+                rep.drift.append({"mode": mode, "case": c, "note": "the run did not wait for the lock file although "
+                                  "another process held it (flock + POSIX lock); judged as a plain run"})
+                c, expect = dict(c, point="Main", how="Return"), None
+            elif c["point"] == "LockWait" and raw.get("fallback_release"):
+                st["not_ended_while_held"] += 1
+                rep.drift.append({"mode": mode, "case": c, "note": "the interrupted waiter did not end while the lock "
+                                  "file was held; not judged"})
+                continue
+            elif c["point"] == "LockWait":
+                st["interrupted_waiters"] += 1
+                st["by"][raw.get("interrupt")] = st["by"].get(raw.get("interrupt"), 0) + 1
+            else:
+                st["proceeded"] += 1
+                if raw.get("entered_after_release") is False:
+                    st["entered_before_release"] += 1
+                    rep.drift.append({"mode": mode, "case": c, "note": "the command's first phase was entered while "
+                                      "another process held the lock file"})
+        traces.append({"id": cs["id"], "c": c, "o": o, "expect": expect,
+                       "opts": {k: cs[k] for k in CASE_OPTS if k in cs}})
+    rep.extra["lock_held_by_another_process"] = st
+    return traces
 
 
 def stock_traces(stock: list[dict[str, Any]], obs: dict[int, dict[str, Any]], rep: Report) -> list[dict[str, Any]]:
@@ -540,6 +604,40 @@ def corruptions(base: dict[str, Any]) -> list[tuple[dict[str, Any], str]]:
     return muts
 
 
+def waiter_corruptions(cases: list[dict[str, Any]]) -> list[tuple[dict[str, Any], str]]:
+    """Binding self-test, part 2: the run that is interrupted while it waits for the lock file.  What the design
+    layer expects (nothing left behind) is accepted; the same with an artifacts directory left behind is judged by
+    the clauses about META.json and the log."""
+    w = next(x for x in cases if x["c"]["point"] == "LockWait" and x["c"]["kind"] == "Script"
+             and all(x["c"][k] for k in ("art", "db", "lock", "hooks")))
+
+    def mut(**kw: Any) -> dict[str, Any]:
+        t = json.loads(json.dumps({"c": w["c"], "o": w["expect"]}))
+        for k, v in kw.items():
+            if isinstance(v, dict):
+                t["o"][k].update(v)
+            else:
+                t["o"][k] = v
+        return t
+
+    good_meta = {"present": True, "exit": 130, "timesOk": True, "configOk": True}
+    good_log = {"present": True, "complete": True, "parsedAll": True}
+    muts = [
+        (mut(), "ok"),
+        (mut(rundir=True, meta=good_meta, log=good_log), "ok"),
+        (mut(rundir=True), "X2/meta-json-written"),
+        (mut(rundir=True, meta=dict(good_meta, exit=0), log=good_log), "X2/meta-exit-code=process"),
+        (mut(rundir=True, meta=good_meta), "X3/log-file-exists"),
+        (mut(rundir=True, meta=good_meta, log={"present": True}), "X3/log-closed"),
+        (mut(exit=0, escaped=""), "X1/exit-code-follows-mapping"),
+        (mut(lockFree=False), "X4/lock-released"),
+        (mut(db={"present": True, "hasEnd": False, "exit": -1}), "X5/db-end-time-set"),
+    ]
+    for k, (m, _) in enumerate(muts):
+        m["id"] = SELF_BASE + 200 + k
+    return muts
+
+
 def pick_base(traces: list[dict[str, Any]]) -> dict[str, Any]:
     for t in traces:
         c = t["c"]
@@ -559,7 +657,10 @@ def run(tier: str, seed: int) -> Report:
                 "log.json.zst (zstd frame end + PenlogReader), flock probe, hook environment, phases entered; plus "
                 "gallia's own `script rerun` (by run_meta id / by META.json, with and without a database, unknown id) "
                 "over recorded runs of the test commands and of `primitive uds ping`, and `discover doip`, each judged "
-                "for the stock command's own run and for the re-run command. "
+                "for the stock command's own run and for the re-run command; plus runs whose lock file is held by "
+                "another process (flock + POSIX lock) when they start: interrupted while they wait for it (every kind x "
+                "{artifacts, db, hooks}; SIGINT from outside, SIGINT raised in the process, task cancellation) or "
+                "going on as their case says once the holder has let go. "
                 "distinct = distinct (mode, case); non-trivial = the injected failure is effective (its resource is on)")
     rep.assumptions = [
         "inproc mode derives the process status from entry_point()'s outcome the way `sys.exit(asyncio.run(...))` "
@@ -570,6 +671,12 @@ def run(tier: str, seed: int) -> Report:
         "test commands are constructed from config objects (no argv parsing; C18 covers that); UDSScanner with "
         "ping off, dumpcap off",
         "one injected failure per run; SIGINT is delivered while the command awaits inside setup/main/teardown",
+        "a run whose lock file is held by another process counts as waiting once a log record mentions waiting or "
+        "1 s has passed (it cannot have the lock either way); an interrupted waiter may leave nothing behind (no "
+        "artifacts directory, no run entry) -- what it does leave is judged by X2/X3/X5; its exit code is 130; X4 for "
+        "it = the holder's lock was still in place when the run had ended and the file was free after the holder's "
+        "release. A waiter that does not end while the lock is held (X22's subject) gets the lock after 6 s and is "
+        "not judged",
         "exit codes where the statement is silent (plain script raising ConnectionError/UDSException: 70 or 74; DB "
         "open failure: any non-zero; failing run_meta update: 0 or a sysexits code) are counted as unspecified",
         "stock commands: the kind of ending fed to the exit-code mapping is the one run() was seen to end with "
@@ -591,8 +698,7 @@ def run(tier: str, seed: int) -> Report:
         obs = execute(bench, inproc + [{"id": MUTANT_ID, "c": MUTANT_CASE, "mutant": "post-hook-removes-meta"}], cli,
                       stock)
         rep.extra["execution_wall_s"] = round(time.time() - t0, 1)
-        traces = [{"id": cs["id"], "c": cs["c"], "o": obs[cs["id"]], "expect": cs["expect"],
-                   "opts": {k: cs[k] for k in CASE_OPTS if k in cs}} for cs in inproc + cli]
+        traces = lock_traces(inproc + cli, obs, rep)
         base = pick_base(traces)
         traces += stock_traces(stock, obs, rep)
         # corrupt the recorded trace of the plain run and, in case the code under test breaks even that
@@ -602,8 +708,9 @@ def run(tier: str, seed: int) -> Report:
         muts_ideal = corruptions(ideal)
         for k, (m, _) in enumerate(muts_ideal):
             m["id"] = SELF_BASE + 100 + k
+        wmuts = waiter_corruptions(cases)
         extra = ([m for m, _ in muts] + [m for m, _ in muts_ideal] + [ideal]
-                 + [{"id": MUTANT_ID, "c": MUTANT_CASE, "o": obs[MUTANT_ID]}])
+                 + [{"id": MUTANT_ID, "c": MUTANT_CASE, "o": obs[MUTANT_ID]}] + [m for m, _ in wmuts])
         verdicts, results = validate(traces + extra)
         for r in results:
             rep.add_tlc(r, "Trace_RunLifecycle batch")
@@ -619,7 +726,12 @@ def run(tier: str, seed: int) -> Report:
         if verdicts[MUTANT_ID]["verdict"] != "X2/meta-json-written":
             raise Machinery(f"binding self-test: mutant environment (post-hook deletes META.json) got "
                             f"{verdicts[MUTANT_ID]}")
-        rep.extra["binding_selftest"] = {"corrupted_rejected": got, "mutant_env": verdicts[MUTANT_ID]["verdict"]}
+        wgot = [verdicts[m["id"]]["verdict"] for m, _ in wmuts]
+        if wgot != [w for _, w in wmuts]:
+            raise Machinery(f"binding self-test: interrupted-waiter traces not judged as expected: got {wgot}, "
+                            f"want {[w for _, w in wmuts]}")
+        rep.extra["binding_selftest"] = {"corrupted_rejected": got, "mutant_env": verdicts[MUTANT_ID]["verdict"],
+                                         "interrupted_waiter": wgot}
         # ---- verdicts of the real executions
         rep.traces = len(traces)
         rep.evaluations = len(traces) + len(extra)
@@ -635,8 +747,10 @@ def run(tier: str, seed: int) -> Report:
                              "cli_sigint": sum(1 for cs in cli if cs["c"]["how"] == "CtrlC")}
     rep.exhaustive = tier == "thorough"
     rep.extra["exhaustive_space"] = (
-        "thorough: the complete TLC case space (1696 cases): all 1488 non-SIGINT cases in inproc mode, all 208 "
-        "real-SIGINT cases in cli mode, plus the non-SIGINT cases of 4 resource sets again in cli mode; "
+        "thorough: the complete TLC case space (1720 cases): all 1488 non-SIGINT cases in inproc mode, all 232 "
+        "real-SIGINT cases in cli mode (24 of them interrupted while waiting for a held lock file; these also "
+        "in inproc mode), plus the non-SIGINT cases of 4 resource sets again in cli mode; every 5th (quick: 13th) "
+        "case with a lock file runs with the lock held by another process for a while; "
         "quick: Script kind x all 16 resource sets, scanner kinds x 4 resource sets (inproc), all SIGINT cases with "
         "every resource on + seeded samples (cli); the stock-command scenarios are a fixed selection in quick and "
         "the full product recorded run x flavour x 4 resource sets in thorough")
